@@ -4,7 +4,9 @@ CHECKS = [
               'constructions with drawn stereo labels) is re-described by rebuild with drawn numbering/insertion order, '
               'copy+remap, the random writer in 5 styles and an RDKit random Kekule spelling; canonical string, ==, hash, '
               'format variants, Morgan partition and written order must agree. Claimed-domain membership is decided by an '
-              'independent orbit oracle. Exploration: no claim beyond the cases generated.',
+              'independent orbit oracle. Exploration: no claim beyond the cases generated.'
+              ' A molecule that served as a member of a formatted reaction must keep the string, hash and equality of a fresh object.'
+              ' The curated witness list is swept completely on every run.',
          note='Trusted: orbit/automorphism oracle (vf/oracles/wl.py), RDKit as the second writer, the rebuild operator '
               '(labels read via _translate_*_sign, parity-checked in C12). Genuine canonicaliser defects outside the two '
               'documented gaps are listed in known_findings.json with independent structural detectors.',
@@ -15,7 +17,9 @@ CHECKS = [
               'order (elements, isotopes, charges, radicals, H, bond orders, tetrahedral/allene/cis-trans signs). Injectivity: '
               'exhaustive enumeration of decorated graphs <= 5 atoms (6 thorough) against brute-force isomorphism classes, and all '
               'label assignments of sampled molecules against stereo signatures under the brute-force automorphism group.'
-              ' str() after reading smiles_atoms_order first must equal str() of a fresh object.',
+              ' str() after reading smiles_atoms_order first must equal str() of a fresh object.'
+              ' Ladder molecules keep ten or more ring bonds open at once so two-digit ring-closure numbers follow bare atoms.'
+              ' The curated witness list is swept completely on every run.',
          note='Trusted: brute-force canonical keys and automorphisms (vf/oracles/iso.py); stereo signs read with _translate_*_sign '
               '(parity-checked in C12); SMILES-inexpressible partial labelling of conjugated polyenes is not generated.',
          technique='round-trip property-based testing (Hypothesis) plus exhaustive small-graph enumeration against brute-force isomorphism'),
@@ -28,7 +32,8 @@ CHECKS = [
               'ValueError subclasses may escape; thorough adds atheris coverage-guided campaigns on smiles() and smarts() with '
               'the same oracle inside the target.'
               ' Atom maps (none / all / dense partial subsets) are written in molecule and reaction text and must become the atom numbers.'
-              ' Every element symbol in four letter cases in six contexts is enumerated (accept exactly the language).',
+              ' Every element symbol in four letter cases in six contexts is enumerated (accept exactly the language).'
+              ' Component-start spellings (chirality, marks, maps) are also placed in second and later components.',
          note='Trusted: vf/oracles/smiles_ref.py (reference reader + writer), RDKit; grey-zone strings are only required to '
               'return a well-formed object or raise ValueError. D2 is exhaustive for its alphabet and length bound only.',
          technique='grammar/graph-directed generation + exhaustive token enumeration + atheris coverage-guided fuzzing against a reference reader and RDKit'),
@@ -39,7 +44,9 @@ CHECKS = [
               'check_valence() must report exactly the atoms without a state, RDKit must agree on every centre/atom both accept, '
               'and formula/charge/radical/mass totals are recomputed.'
               ' Isotopic and plain hydrogen atoms attached through the API, then explicify/implicify: every count is re-derived and totals must not move.'
-              ' Several structural edits in one transaction and written bracket hydrogen counts are checked against the tables as well.',
+              ' Several structural edits in one transaction and written bracket hydrogen counts are checked against the tables as well.'
+              ' canonicalize() is run with keep_kekule crossed with both fix_tautomers values and every stored count re-derived.'
+              ' The curated witness list is swept completely on every run.',
          note='Trusted: the re-implementation of the documented table semantics (vf/oracles/valence_ref.py) and RDKit valence '
               'model as independent judge for common chemistry; consistent edits of exotic data tuples outside RDKit are a stated limit.',
          technique='exhaustive enumeration of centre states + property-based molecules against a table re-derivation and RDKit differential'),
@@ -50,7 +57,8 @@ CHECKS = [
               'enumerated Kekule form valid/distinct/complete against the perfect-matching count and aromatising to one form, '
               'atom-wise equality of the aromatic form under a drawn rebuild/renumbering, RDKit resonance equivalence.'
               ' The same conversions are repeated on one object with drawn reads (string, compiled structure, queries, ring set) in between: cache state must not influence the forms.'
-              ' canonicalize(keep_kekule=True) must carry the per-atom data of canonicalize() and only table states.',
+              ' canonicalize(keep_kekule=True) must carry the per-atom data of canonicalize() and only table states.'
+              ' All pairs of 20 ring ylidene fragments joined by an exocyclic double bond are enumerated. The curated witness list is swept completely on every run.',
          note='Trusted: independent perfect-matching counter (exact only for C / pyridine-N systems, applied only there), MCB '
               'uniqueness oracle, RDKit. Tautomer fixing is held off for per-atom clauses (documented behaviour).',
          technique='property-based testing with a constructive ring-system generator; invariant, round-trip, metamorphic (renumbering) and differential (matching count, RDKit) oracles'),
@@ -61,7 +69,8 @@ CHECKS = [
               'existing bonds, GF(2) independence, minimum total size against an independent minimum-cycle-basis computation, '
               'and agreement of atom/bond ring marks, ring counts and components with the reported set.'
               ' Two-assembly molecules (separate components, bonded, linked) exercise the molecule-wide ring count.'
-              ' A rejected transaction that looked at the rings of the edited state must leave ring list, counts, marks and components untouched.',
+              ' A rejected transaction that looked at the rings of the edited state must leave ring list, counts, marks and components untouched.'
+              ' The curated witness list is swept completely on every run.',
          note='Trusted: vf/oracles/mcb.py (bridge/block finder, exhaustive simple-cycle enumeration, GF(2) elimination). The '
               'recorded theta-type gap is excluded from the minimality clause by an independent structural predicate and counted.',
          technique='exhaustive small-graph enumeration + property-based ring assemblies against an independent minimum cycle basis oracle'),
@@ -71,7 +80,8 @@ CHECKS = [
               'settings - are compared with an exhaustive reference enumeration of all injective maps satisfying the four stated '
               'clauses (set equality, no duplicates, one mapping per image set, scope restriction, operator agreement); '
               'lazy_product is compared with itertools.product.'
-              ' A metallacycle mode spells ring patterns from every ring atom of targets with Pt/Hg/Pb/Sn ring atoms.',
+              ' A metallacycle mode spells ring patterns from every ring atom of targets with Pt/Hg/Pb/Sn ring atoms.'
+              ' Metallacycle targets are searched with hybridisation-constrained heavy-atom patterns.',
          note='Trusted: brute-force embedding enumerator (vf/oracles/iso.py) bounded to targets <= 24 / patterns <= 8 atoms; leaf '
               'predicates are the library atom/bond __eq__ (their meaning is decided in C08).',
          technique='differential property-based testing against an exhaustive reference enumerator'),
@@ -83,7 +93,9 @@ CHECKS = [
               'tested against both enantiomers; every bracket token string up to 3 tokens and every bond token is enumerated for '
               'the reject-or-query clause, with a list of out-of-subset SMARTS that must raise the invalid-SMARTS error.'
               ' A periodic-table sweep checks element, #n, two- and three-member element lists drawn over the whole table, A and M on one- and three-atom molecules of every element.'
-              ' Ring marks combined with cis/trans marks on one bond (metamorphic), and QueryElement.from_atom with drawn flag subsets.',
+              ' Ring marks combined with cis/trans marks on one bond (metamorphic), and QueryElement.from_atom with drawn flag subsets.'
+              ' Single counts are passed to the query-atom constructors as plain ints (incl. 0), several as tuples, and must match what the text form matches.'
+              ' Two-atom queries written after a bond of the molecule put one primitive on the atom reached by neighbour expansion.',
          note='Trusted: the documented default semantics of query atoms (charge 0 / non-radical unless given, empty = any, ~ = special '
               'bond), the ring oracle (ring-size primitives only where the minimum cycle basis is unique), an explicit metal list '
               '(ambiguous elements not used).',
@@ -93,7 +105,8 @@ CHECKS = [
               'ring closures on cage-like targets, scopes, both filter settings) and an exhaustive bit-layout sweep (every element x '
               'tabulated isotope x charge x radical with exact and one-attribute-off queries; neighbour/heteroatom 0-14, H 0-4, '
               'hybridisation 1-4, ring sizes 3-66).'
-              ' Per element additionally: A, M and element lists, and five-membered ring queries numbered from three different atoms on a ring containing that element.',
+              ' Per element additionally: A, M and element lists, and five-membered ring queries numbered from three different atoms on a ring containing that element.'
+              ' Targets already searched are renumbered / extended in place and searched again by both matchers; Cl-X element pairs are swept.',
          note='The compiled configuration is the repository .pyx source executed by a transliterator with C integer semantics and '
               'bounds-checked pointers (no Cython here): source-level defects are in reach, compiler-level effects are not. '
               'Documented exclusions (Lv/Ts/Og, rings > 65) are skipped and counted.',
@@ -104,7 +117,8 @@ CHECKS = [
               'tabulated isotope with rotating charge/H/radical, reactions with 0-3 molecules per role incl. empty roles: '
               'unpack(pack(x)) field by field, bytes equal to an independent reference encoder, reference decoder equal to '
               'unpack, version-0 order block, pack_len, dispatch, format limits; the published packs (every 10th quick, all '
-              '4200 thorough) against the reference decoder, re-packing and the csv constitution.',
+              '4200 thorough) against the reference decoder, re-packing and the csv constitution.'
+              ' The curated witness list is swept completely on every run.',
          note='Trusted: vf/oracles/packref.py written from the docstring layout; codec run through the pyx transliterator. Pair '
               'orientation in cis/trans records and float16 truncation vs rounding are not fixed by the layout text; either accepted.',
          technique='round-trip + differential (independent reference codec) property-based testing; regression corpus of published packs'),
@@ -114,7 +128,9 @@ CHECKS = [
               'canonicalize() result, pack bytes, ...) are each computed uncached, cached, on a copy and on a second fresh object '
               'in the opposite order; all digests must agree within and across processes.'
               ' canonicalize / standardize_charges / neutralize are applied to a cold and to a warmed fresh object and must agree.'
-              ' A molecule after serving as a reaction member and after a rejected transaction that read the edited state must equal a fresh object.',
+              ' A molecule after serving as a reaction member and after a rejected transaction that read the edited state must equal a fresh object.'
+              ' Values re-read after a multi-component search with a searching scope must equal those of a cold process.'
+              ' A fixed list of ions with every charge -4..+4 is always swept.',
          note='Only hash-seed / process / cache-order dependence observable on this platform within six seeds is detectable; '
               'hash(molecule) is excluded by the property text (string hash).',
          technique='configuration-sweep property-based testing (metamorphic: same input, different process/hash seed/cache order)'),
@@ -123,7 +139,9 @@ CHECKS = [
               'coordinates, mapping on/off) are pushed through to_rdkit_molecule / from_rdkit_molecule: per-atom payload (element, '
               'isotope, charge, radical, total H, map number, coordinates), chirality-aware equivalence with RDKit\'s own reading '
               'of the SMILES, atom-wise and canonical-string identity of the round trip, and the same for RDKit-originated corpus '
-              'molecules (also with hydrogens added by RDKit).',
+              'molecules (also with hydrogens added by RDKit).'
+              ' The configuration RDKit reads from the source text must equal the one that comes back through the bridge (8-ring E/Z included).'
+              ' The curated witness list is swept completely on every run.',
          note='Trusted: RDKit canonical SMILES / chirality-aware substructure matching and chython canonical SMILES as the two judges '
               'named by the property; molecules where the aromaticity models or RDKit sanitisation rewrite the structure are '
               'skipped and counted.',
@@ -137,7 +155,8 @@ CHECKS = [
               'three ways; random access on disk equals sequential reading; repository files give the delimiter-counted number '
               'of records.'
               ' Whether a drawing encodes a label is decided geometrically from the stored coordinates at record precision, never by the library.'
-              ' Records written in two sessions (append=True) on a real file must read back like one session.',
+              ' Records written in two sessions (append=True) on a real file must read back like one session.'
+              ' The curated witness list is swept completely on every run.',
          note='Trusted: RDKit mol block reader/writer as the independent program (drug-like closed-shell molecules only); stereo is '
               'asserted only where the 2D layout can encode it (non-degenerate wedges, cis/trans reproduced from coordinates) and for '
               'centres without explicit hydrogens.',
@@ -150,7 +169,9 @@ CHECKS = [
               'cumulenes, oximes) judged by RDKit and by mutual equality; (3) single-label inversion never gives an equal molecule, '
               'RDKit agrees; (4) marks on non-stereogenic centres are dropped.'
               " The library's own writer in eight styles on labelled molecules up to 18 atoms is judged by RDKit against the spelling of the independent writer."
-              ' Wedge notation: every single-wedge marking of a centre (any bond, up/down, either allene terminal) must be stored as a function of the geometric hand; explicit-H spellings also through the RDKit bridge.',
+              ' Wedge notation: every single-wedge marking of a centre (any bond, up/down, either allene terminal) must be stored as a function of the geometric hand; explicit-H spellings also through the RDKit bridge.'
+              ' Ring-attached cumulenes with the ring at either terminal (axial family) are held to the permutation-consistency clause.'
+              ' Spelling families cover endocyclic E/Z double bonds at the ring-size limit (6-10).',
          note='Trusted: parity from permutation cycles, RDKit as the independent toolkit for the absolute convention (carbon centres, '
               'simple double bonds); pseudo-asymmetric and meso situations are excluded from clause (3) by the symmetry oracle.',
          technique='exhaustive permutation/spelling enumeration + property-based testing with parity and RDKit oracles'),
@@ -162,7 +183,8 @@ CHECKS = [
               'public setters), adjacency symmetry, rollback restoration and source independence are asserted. Histories are plain '
               'operation lists, so a failure shrinks and replays as one value.'
               ' Exhaustive tier: every ordered pair of 117 concrete operations on 8 seeds of <= 4 atoms, with all values read after every step and with single rotating reads (219k histories thorough, 1/40 slice quick).'
-              ' Transactions that edit topology, read derived values inside the block and are rejected; commits with several structural edits.',
+              ' Transactions that edit topology, read derived values inside the block and are rejected; commits with several structural edits.'
+              ' Derived containers (copy, substructure, union) must denote the configuration of their source.',
          note='Trusted: the rebuild operator and the C01 symmetry oracle / MCB oracle used to skip values that legitimately depend '
               'on the perceived ring set or fall in documented canonicalisation gaps (counted).',
          technique='model-based (stateful) property-based testing with an independent rebuild as reference model'),
@@ -174,7 +196,8 @@ CHECKS = [
               'independence, tautomer-set properties; all 122 documented (spelling, canonical spelling) pairs of the rule tests, '
               'also under two renumberings, with fired rule indices recorded.'
               " Geminal double instances of a documented spelling are grafted; the rule tables' Any-atom lists decide whether one call must finish both."
-              ' Every operation is also applied to an object whose derived values were read first.',
+              ' Every operation is also applied to an object whose derived values were read first.'
+              ' Operation order inside a case is drawn (enumeration before neutralize in one interpreter) and curated neutral acid / anion salts are included.',
          note='Trusted: canonical strings for numbering independence (C01 gaps skipped); documented pairs are read from the '
               'repository\'s own rule tests with ast. Rule instances/grafted spellings are only held to heavy-atom conservation, '
               'idempotence and numbering independence because the tables correct hydrogens/charges of mis-spellings on purpose.',
@@ -186,7 +209,8 @@ CHECKS = [
               'invariance, SMILES read-back of roles and molecules (plain and mapped), every atom and bond of the condensed '
               'graph against the ground truth, empty centre for identical sides and invariance of the condensed-graph string.'
               ' Symmetry of a condensed graph is decided by the independent refinement/orbit oracle on the dynamic labelled graph.'
-              ' contract_ions()/remove_reagents() on a reaction with warm caches against a fresh reaction with the same roles.',
+              ' contract_ions()/remove_reagents() on a reaction with warm caches against a fresh reaction with the same roles.'
+              ' explicify_hydrogens() on reactions with reagents: numbers unique per role, reagents disjoint, no spectator atom in the reaction centre.',
          note='Trusted: the ground truth is the generator\'s own edit list; molecule identity within roles uses canonical strings '
               '(C01 gaps skipped) and only for valence-valid reactions.',
          technique='property-based testing with constructed ground truth (reference model = the edit list) and metamorphic permutation/renumbering relations'),
@@ -197,7 +221,8 @@ CHECKS = [
               'fragments, in-place element/charge/radical/isotope, new atoms and their numbers, bond orders, hydrogens of patched '
               'atoms from the valence re-derivation); one product per match, input untouched, stereo frame condition, identity '
               'template, unique product numbers, invariance of the product set under renumbering and reactant order.'
-              ' Exhaustive reactor mode on a duplicated doubly reactive substrate: only template-named elements may change.',
+              ' Exhaustive reactor mode on a duplicated doubly reactive substrate: only template-named elements may change.'
+              ' With fix_aromatic_rings=False and Kekule inputs no product bond may be aromatic.',
          note='Trusted: the patch model in the check (semantics from the property text); matches themselves are taken from the '
               'library (C07 decides them). Aromatic ring fixing is off for the atom-wise comparison.',
          technique='model-based property-based testing (labelled-graph patch model) with metamorphic renumbering/order relations'),
@@ -205,7 +230,9 @@ CHECKS = [
          text='Generated molecules x drawn parameters (radii 1-6, length 2^4..2^12, active bits 1-4, bit pairs 0-5): linear hash sets '
               'against an independent simple-path enumerator with the multiplicity cap, Morgan sets against an independent iterated '
               'neighbourhood hasher, bit sets/arrays against the documented folding, dictionary keys against the hash sets, and '
-              'invariance of all of them under a drawn rebuild with new numbering and insertion order.',
+              'invariance of all of them under a drawn rebuild with new numbering and insertion order.'
+              ' Morgan environment strings are compared with independently cut neighbourhood subgraphs.'
+              ' The curated witness list is swept completely on every run.',
          note='Trusted: reference enumerators in the check; hash composition and atom identifier taken as the format definition.',
          technique='differential (reference enumerator) and metamorphic (renumbering) property-based testing'),
     dict(id='C18',
@@ -214,7 +241,9 @@ CHECKS = [
               'pack round trip and independent decoding of the matcher bit layout for every triple. Complete for the '
               'stated finite domain, so exploration here is exhaustive.'
               " The exact query atom of every state is compiled, compared word for word with the documented layout and tested against every molecule-side state of the element with the matcher's q & m == m rule."
-              ' Ten different first lookups in fresh interpreters, each followed by all 354 number/symbol lookups.',
+              ' Ten different first lookups in fresh interpreters, each followed by all 354 number/symbol lookups.'
+              ' Every La..Mc element is matched as a neighbour atom against the query of every other element through the compiled matcher.'
+              ' Every tabulated isotope is also packed on a labelled stereocentre where the library accepts a label.',
          note='Trusted: the literal symbol table in the check, the pyx transliterator (no compiled extension in this '
               'sandbox), the independent bit-layout decoder written from the documented layout.',
          technique='exhaustive enumeration of the finite element/isotope/charge domain with round-trip and independent-decoder oracles'),
